@@ -720,7 +720,9 @@ TEXT["C15"]["text"] += (" BLOCK FETCHER (Props/C15Fetcher.lean, Model/Fetcher.le
     "transition system over events of any number of peers; for every reachable state: per peer <= blockLimit queued blocks, in total <= "
     "peers x blockLimit, each accepted within [-maxUncleDist, +maxQueueDist] of the chain height; the queue counters equal the entries; "
     "dropPeer only for the origin of a block that failed validateBlock; insertChain only for a queued, popped, validated entry with known "
-    "parent at height <= head+1, and nothing of that hash is kept when its goroutine ends. The announce side is FALSE of the code as it is "
-    "(finding FGD1: the counter of pending announcements goes negative, lifting hashLimit): theorems hold for the repaired variant, "
-    "negative witnesses for the code; stream fetcher replays the real fetcher through the model.")
+    "parent at height <= head+1, and nothing of that hash is kept when its goroutine ends. The announce side (per peer <= hashLimit pending announcements, "
+    "announce counters equal the entries) holds of the code since the fix of finding FGD1 (the timer case now counts the fetch it stores; "
+    "before, the counter of pending announcements went negative, lifting hashLimit): theorems announces_bounded / counters_consistent for "
+    "the code as it is, negative witnesses beforeFGD1_* for the tree before the fix; stream fetcher replays the real fetcher through the "
+    "model, its announce-counter / announce-bound monitors are strict.")
 TEXT["C16"]["text"] += (" At fetcher level (Props/C15Fetcher.lean): never_imports_unqueued, import_in_height_order, failed_import_not_kept.")
